@@ -351,6 +351,29 @@ def _linear_map(ctx: Context, idx, mod: str, forward_name: str, creator_name: st
             elif isinstance(a, ast.Call) and isinstance(a.func, ast.Attribute) and a.func.attr == "append" and a.args and a.args[0] is call \
                     and isinstance(a.func.value, ast.Name):
                 produced[a.func.value.id] = target
+    # (b') the forward map scatters its result through the index lists (`new[indices] = M @ x[indices]`), so the cotangent of x, which is
+    #      collected block by block, must be put back in the order of the state vector on every path: the statement that builds it is
+    #      `concatenate(blocks)[concatenate(orders).argsort()]` and is not conditional
+    for nm_, role in list(produced.items()):
+        if role != xname:
+            continue
+        finals = [a for a in ast.walk(inner) if isinstance(a, ast.Assign) and len(a.targets) == 1 and isinstance(a.targets[0], ast.Name)
+                  and nm_ in (_deps(inner, a.targets[0].id) | {x.id for x in ast.walk(a.value) if isinstance(x, ast.Name)})
+                  and any(isinstance(c_, ast.Call) and (dotted(c_.func) or "").split(".")[-1] == "concatenate" for c_ in ast.walk(a.value))]
+        finals = finals[:1]
+        for a in finals:
+            reordered = isinstance(a.value, ast.Subscript) and any(isinstance(c_, ast.Call) and isinstance(c_.func, ast.Attribute) and c_.func.attr == "argsort"
+                                                                      for c_ in ast.walk(a.value.slice))
+            top_level = a in inner.body
+            key = f"{creator.qualname}|cotangent of {xname} is put back in state-vector order"
+            good = reordered and top_level
+            n_ob += 1
+            ctx.obligation("C10b", key, good, where=f"{ctx.relpath(creator.file)}:{a.lineno}")
+            if not good:
+                ctx.violation("C10b", key, creator.file, a.lineno,
+                              f"the cotangent of `{xname}` is assembled from per-block pieces by `{norm(a.value)[:70]}` "
+                              f"{'without the argsort of the collected index lists' if not reordered else 'only on some paths'}: the forward map scatters "
+                              f"through the index lists for every mode order, so the pieces are not in state-vector order in general", norm(a)[:120])
     # (c) order of the returned cotangents = order of the arguments of the attached function
     attach = idx.find_function(mod, attach_name)
     wrapped = [s for s in attach.node.body if isinstance(s, ast.FunctionDef)]
